@@ -564,13 +564,32 @@ func EqualValues(a, b reflect.Value) bool {
 		}
 		return true
 	case reflect.Map:
+		if a.Type().Elem().Kind() == reflect.Interface {
+			// nil-valued entries of a generic map are "no value", like absent keys
+			for _, p := range [][2]reflect.Value{{a, b}, {b, a}} {
+				iter := p[0].MapRange()
+				for iter.Next() {
+					ov := p[1].MapIndex(iter.Key())
+					if !ov.IsValid() {
+						if !emptyish(iter.Value()) {
+							return false
+						}
+						continue
+					}
+					if !EqualValues(addressable(iter.Value()), addressable(ov)) {
+						return false
+					}
+				}
+			}
+			return true
+		}
 		if a.Len() != b.Len() {
 			return false
 		}
 		iter := a.MapRange()
 		for iter.Next() {
 			bv := b.MapIndex(iter.Key())
-			if !bv.IsValid() || !EqualValues(iter.Value(), bv) {
+			if !bv.IsValid() || !EqualValues(addressable(iter.Value()), addressable(bv)) {
 				return false
 			}
 		}
@@ -596,6 +615,17 @@ func EqualValues(a, b reflect.Value) bool {
 	return false
 }
 
+// addressable returns an addressable copy of v (map elements are not
+// addressable, which would make their unexported fields unreadable).
+func addressable(v reflect.Value) reflect.Value {
+	if v.CanAddr() || !v.CanInterface() {
+		return v
+	}
+	n := reflect.New(v.Type()).Elem()
+	n.Set(v)
+	return n
+}
+
 // Exported returns v in a form whose Interface method may be called, even if
 // v was obtained through an unexported struct field (v must be addressable).
 func Exported(v reflect.Value) reflect.Value {
@@ -612,7 +642,7 @@ func endsNil(v reflect.Value) bool {
 		}
 		v = v.Elem()
 	}
-	return false
+	return v.Kind() == reflect.Ptr && v.IsNil()
 }
 
 func emptyish(v reflect.Value) bool {
@@ -707,7 +737,7 @@ func show(b *strings.Builder, v reflect.Value, depth int) {
 				b.WriteString(" ")
 			}
 			fmt.Fprintf(b, "%q:", strs[i])
-			show(b, v.MapIndex(k), depth+1)
+			show(b, addressable(v.MapIndex(k)), depth+1)
 		}
 		b.WriteString("}")
 	case reflect.Struct:
